@@ -480,6 +480,8 @@ func TestHTTPEndpointProviderConverges(t *testing.T) {
 
 		m := &model{applied: map[int]string{}}
 		answer := map[string]string{} // path -> outcome kind
+		// path -> how the server names the media type of its answer (with parameters, in another case: RFC 7231, section 3.1.1.1)
+		contentType := map[string]string{}
 
 		remote.Set(func(c vkit.Call) vkit.Reply {
 			var s int
@@ -496,7 +498,12 @@ func TestHTTPEndpointProviderConverges(t *testing.T) {
 			case "timeout":
 				return vkit.Reply{Hang: true}
 			default:
-				return vkit.Reply{Status: 200, Header: map[string]string{"Content-Type": "application/yaml"}, Body: []byte(ruleSetYAML(s, kind))}
+				ct := contentType[c.Path]
+				if ct == "" {
+					ct = "application/yaml"
+				}
+
+				return vkit.Reply{Status: 200, Header: map[string]string{"Content-Type": ct}, Body: []byte(ruleSetYAML(s, kind))}
 			}
 		})
 
@@ -524,6 +531,9 @@ func TestHTTPEndpointProviderConverges(t *testing.T) {
 			}
 
 			answer[fmt.Sprintf("/rules/src%d", s)] = kind
+			contentType[fmt.Sprintf("/rules/src%d", s)] = rapid.SampledFrom([]string{"application/yaml", "application/yaml", "application/yaml", "application/json",
+				"application/yaml; charset=utf-8", "application/yaml;charset=UTF-8", "Application/YAML"}).Draw(t, "contentType")
+			vkit.S.LabelIf(contentType[fmt.Sprintf("/rules/src%d", s)] != "application/yaml" && len(kind) == 2, "http_endpoint.content_type_spelled_differently")
 			polls := rapid.IntRange(1, 2).Draw(t, "polls") // repeated polls see unchanged content
 			nt = nt || kind != "v1" && kind != "v2" && kind != "v3" || polls > 1
 
@@ -696,7 +706,8 @@ func TestCloudBlobProviderConverges(t *testing.T) {
 
 				content[s] = ""
 			} else {
-				if err = bucket.WriteAll(ctx, key, []byte(ruleSetYAML(s, kind)), &blob.WriterOptions{ContentType: "application/yaml"}); err != nil {
+				ct := rapid.SampledFrom([]string{"application/yaml", "application/yaml", "application/yaml", "application/yaml; charset=utf-8", "Application/YAML"}).Draw(t, "contentType")
+				if err = bucket.WriteAll(ctx, key, []byte(ruleSetYAML(s, kind)), &blob.WriterOptions{ContentType: ct}); err != nil {
 					t.Fatalf("harness: %v", err)
 				}
 
